@@ -55,13 +55,13 @@ Section Total.
   Hypothesis G : all_guarded g = true.
 
   Lemma G_all : g_ints_target g = true /\ g_ints_walk_once g = true /\ g_dm_path g = true /\ g_swagger_rest g = true /\
-                g_db_path g = true /\ g_db_writer_path g = true /\ g_db_progress g = true /\ g_mseq_err g = true /\
+                g_sw_param_schema g = true /\ g_oa3_ret_split g = true /\ g_db_path g = true /\ g_db_writer_path g = true /\ g_db_progress g = true /\ g_mseq_err g = true /\
                 g_mint_app g = true /\ g_render_recover g = true.
   Proof. pose proof G as H. unfold all_guarded in H. repeat (apply andb_true_iff in H; destruct H as [H ?]). repeat split; assumption. Qed.
 
   Lemma render_fine rend o : fine o = true -> fine (render g rend o) = true.
   Proof.
-    destruct G_all as (_ & _ & _ & _ & _ & _ & _ & _ & _ & Hr).
+    destruct G_all as (_ & _ & _ & _ & _ & _ & _ & _ & _ & _ & _ & Hr).
     intros H. destruct o; try discriminate H; cbn [render]; [|reflexivity]. destruct rend; [reflexivity|]. rewrite Hr. reflexivity.
   Qed.
 
@@ -79,7 +79,7 @@ Section Total.
     - intros n. unfold mseq_expand. destruct (find_app m (fst n)); [|reflexivity]. destruct (find_ep a0 (snd n)); reflexivity.
     - intros n pre tgt. unfold mseq_expand. destruct (find_app m (fst n)); [|intros []]. destruct (find_ep a0 (snd n)); [|intros []].
       cbn [snd]. intros Hin. apply in_map_iff in Hin. destruct Hin as (c & Hc & _). inversion Hc. reflexivity.
-    - destruct G_all as (_ & _ & _ & _ & _ & _ & _ & Hm & _). unfold mseq_onerr. rewrite Hm. reflexivity.
+    - destruct G_all as (_ & _ & _ & _ & _ & _ & _ & _ & _ & Hm & _). unfold mseq_onerr. rewrite Hm. reflexivity.
     - pose proof (unseen_le pair_eqb (keyed (fun a c => (a_name a, c_ep c)) m) []) as Hle. rewrite keyed_length in Hle. lia.
   Qed.
 
@@ -100,7 +100,7 @@ Section Total.
   Lemma mint_walk_fine m fuel n : (length (all_calls m) < fuel)%nat ->
     fine (fst (walk pair_eqb (mint_expand g m) Err true true fuel n [])) = true.
   Proof.
-    intros Hf. destruct G_all as (_ & _ & _ & _ & _ & _ & _ & _ & Hmi & _).
+    intros Hf. destruct G_all as (_ & _ & _ & _ & _ & _ & _ & _ & _ & _ & Hmi & _).
     apply (walk_fine pair_eqb pair_eqb_spec (mint_expand g m) Err true (keyed (fun a c => (a_name a, c_app c)) m)).
     - intros n0 o es pre k n' He Hin. unfold mint_expand in He. destruct n0 as [x|].
       + destruct (find_app m x) as [ap|] eqn:Ea.
@@ -185,12 +185,28 @@ Section Total.
     unfold dm_project. destruct (find_app m p); [|reflexivity]. apply first_bad_map_fine. intros v _.
     apply first_bad_map_fine. intros n _. destruct (find_app m n); [apply dm_view_fine|reflexivity].
   Qed.
+  Lemma sw_params_fine ps : fine (sw_params g ps) = true.
+  Proof.
+    destruct G_all as (_ & _ & _ & _ & Hsp & _).
+    induction ps as [|p r IH]; [reflexivity|]. cbn [sw_params]. destruct p; [exact IH|rewrite Hsp; exact IH|reflexivity].
+  Qed.
   Lemma swagger_fine m sel : fine (swagger g m sel) = true.
   Proof.
     destruct G_all as (_ & _ & _ & Hs & _).
     assert (Ha : forall a, fine (sw_app g a) = true).
-    { intros a. unfold sw_app. apply first_bad_map_fine. intros e _. unfold sw_ep. rewrite Hs. destruct (e_words e <? 2); reflexivity. }
+    { intros a. unfold sw_app. apply first_bad_map_fine. intros e _. unfold sw_ep. rewrite Hs.
+      destruct (e_words e <? 2); [reflexivity|apply sw_params_fine]. }
     unfold swagger. destruct sel as [n|].
+    - destruct (find_app m n); [apply Ha|reflexivity].
+    - destruct m; [reflexivity|]. apply first_bad_map_fine. intros a0 _. apply Ha.
+  Qed.
+  Lemma openapi3_fine m sel : fine (openapi3 g m sel) = true.
+  Proof.
+    destruct G_all as (_ & _ & _ & _ & _ & Ho & _).
+    assert (Ha : forall a, fine (oa3_app g a) = true).
+    { intros a. unfold oa3_app. apply first_bad_map_fine. intros e _. unfold oa3_ep. apply first_bad_map_fine.
+      intros b _. rewrite Ho. destruct b; reflexivity. }
+    unfold openapi3. destruct sel as [n|].
     - destruct (find_app m n); [apply Ha|reflexivity].
     - destruct m; [reflexivity|]. apply first_bad_map_fine. intros a0 _. apply Ha.
   Qed.
@@ -198,7 +214,7 @@ Section Total.
   (* ---- database scripts ---- *)
   Lemma ftd_ok vis fs : fst (ftd g vis fs) = Ok.
   Proof.
-    destruct G_all as (_ & _ & _ & _ & Hp & _).
+    destruct G_all as (_ & _ & _ & _ & _ & _ & Hp & _).
     induction fs as [|f r IH]; [reflexivity|]. cbn [ftd]. destruct (f_ref f) as [p|]; [|exact IH].
     destruct p as [|t [|c p']]; try (rewrite Hp; destruct (ftd g vis r); cbn [fst] in *; exact IH).
     destruct (ftd g vis r); cbn [fst] in *; exact IH.
@@ -220,7 +236,7 @@ Section Total.
 
   Lemma db_order_fine : forall fuel inc vis, (length inc < fuel)%nat -> fine (db_order g fuel inc vis) = true.
   Proof.
-    destruct G_all as (_ & _ & _ & _ & _ & _ & Hpr & _).
+    destruct G_all as (_ & _ & _ & _ & _ & _ & _ & _ & Hpr & _).
     induction fuel as [|f IH]; intros inc vis Hf; [lia|]. cbn [db_order].
     pose proof (db_pass_spec inc vis) as Hs. destruct (db_pass g inc vis) as [[[o v2] rem] p].
     destruct Hs as (-> & Hl & Hp). destruct rem as [|t rem]; [reflexivity|]. rewrite Hpr. destruct p; cbn [negb andb]; [|reflexivity].
@@ -229,7 +245,7 @@ Section Total.
 
   Lemma db_create_fine m fuel apps : (length (all_types m) < fuel)%nat -> fine (db_create g m fuel apps) = true.
   Proof.
-    intros Hf. destruct G_all as (_ & _ & _ & _ & _ & Hw & _).
+    intros Hf. destruct G_all as (_ & _ & _ & _ & _ & _ & _ & Hw & _).
     unfold db_create. apply first_bad_map_fine. intros n _. destruct (find_app m n) as [a|] eqn:Ea; [|reflexivity].
     unfold db_app. assert (Hlen : (length (a_types a) <= length (all_types m))%nat).
     { apply find_app_some in Ea. destruct Ea as [Ha _]. unfold all_types. clear -Ha. induction m as [|x r IH]; [destruct Ha|].
@@ -249,6 +265,7 @@ Section Total.
     - apply dm_direct_fine.
     - apply dm_project_fine.
     - apply swagger_fine.
+    - apply openapi3_fine.
     - apply db_create_fine. lia.
   Qed.
 End Total.
